@@ -25,7 +25,7 @@ confirm = {}
 for f in ("/tmp/seeds/confirm.log", "/tmp/seeds/results2.log"):
     confirm.update(parse_confirm(f))
 results = {}
-for f in ("/tmp/seeds/results.log", "/tmp/seeds/results2.log", "/tmp/seeds/results3.log"):
+for f in ("/tmp/seeds/results_r1.log", "/tmp/seeds/results_r2.log", "/tmp/seeds/results_r3.log", "/tmp/seeds/results_rerun1.log", "/tmp/seeds/results_rerun2.log", "/tmp/seeds/results_rerun3.log"):
     for k, v in parse_results(f).items():
         results[k] = v   # later logs override
 rows = []
@@ -63,7 +63,7 @@ for d in sorted(os.listdir("/tmp/seeds")):
         "summary": agent.get("summary"),
         "needs": agent.get("needs"),
         "produced_by": "independent sub-agent given only the property text and a scratch worktree",
-        "confirmed_here": {"in": "scratch worktree /tmp/wt-clean (removed afterwards)",
+        "confirmed_here": {"in": "scratch worktree of /repo under /tmp (removed afterwards)",
                            "what": "git apply; cargo test --offline (whole suite) with the change; demo.rs as tests/demo.rs with the change (must fail) and without (must pass)",
                            "result": c},
         "checks_run": {p: l for p, l in checks.items()},
